@@ -221,9 +221,6 @@ def build_cases(ctx) -> List[Case]:
             series = D.gen_series(rng, ind, rng.randint(1, 2), rng.randint(3, 6))
             rows = mk_rows(series, rng)
             ps = [p for _, p in series]
-            for mode in ("single", "all"):
-                cases.append(Case("fill_time_series", f"DS_r <- fill_time_series(DS_1, {mode});", S, rows, f"(k_index {D.coq_ps(ps)})",
-                                  check_fill(series, rows, mode), ind))
             cases.append(Case("flow_to_stock", "DS_r <- flow_to_stock(DS_1);", S, rows, f"(k_index {D.coq_ps(ps)})",
                               check_flow(series, rows, "flow_to_stock"), ind))
             cases.append(Case("stock_to_flow", "DS_r <- stock_to_flow(DS_1);", S, rows, f"(k_index {D.coq_ps(ps)})",
@@ -247,6 +244,15 @@ def build_cases(ctx) -> List[Case]:
             rows2 = [dict(r, Me_2=D.canon(q)) for r, q in zip(rows, qs)]
             cases.append(Case("datediff_tp", "DS_r <- DS_1[calc Me_3 := datediff(Id_2, Me_2)];", S2, rows2,
                               f"(k_datediff {D.coq_ps(ps)} {D.coq_ps(qs)})", check_columns(series, 1, 4), ind))
+    # fill_time_series, both modes, over data whose first / last years are 53-week / leap years, datapoints at the year boundaries
+    for ind in P.INDS:
+        for _ in range((2 if ind in "WD" else 1) * (1 if ctx.tier == "quick" else 6)):
+            series = D.gen_fill_series(rng, ind)
+            rows = mk_rows(series, rng)
+            ps = [p for _, p in series]
+            for mode in ("single", "all"):
+                cases.append(Case("fill_time_series", f"DS_r <- fill_time_series(DS_1, {mode});", S, rows, f"(k_index {D.coq_ps(ps)})",
+                                  check_fill(series, rows, mode), ind))
     # Date-typed measures
     Sd = D.tp_structure(extra=[("Me_2", "Date", "Measure", True), ("Me_3", "Date", "Measure", True)])
     import datetime as dt
@@ -350,6 +356,7 @@ def check_fill(series, rows, mode):
         if any(outm[k] is not None for k in added):
             msgs.append((False, "a filled datapoint carries a non-null measure"))
         case.fill_out = sorted(outm)            # second Coq pass computes the indices of the OUTPUT periods
+        case.fill_mode = mode
         return msgs
     return chk
 
@@ -471,9 +478,15 @@ def k_datasets(ctx) -> None:
             ctx.violation(key_for(base, c.ind, predicted), f"{c.script}: {msg}", c.replay_obj({"observed": msg}))
     # fill_time_series: the result must be gap-free in calendar order — indices of the OUTPUT periods from the specification
     if fills:
-        exprs = ["(k_index " + D.coq_ps([(e // 1000, c.ind, e % 1000) for _, e in c.fill_out]) + ")" for c in fills]
+        # after the output periods, one probe per year of the output: the first period of the NEXT year (its index minus one is
+        # the index of the year's last period)
+        for c in fills:
+            c.fill_years = sorted({e // 1000 for _, e in c.fill_out})
+        exprs = ["(k_index " + D.coq_ps([(e // 1000, c.ind, e % 1000) for _, e in c.fill_out] + [(y + 1, c.ind, 1) for y in c.fill_years]) + ")"
+                 for c in fills]
         idxs = common.coq_eval(P.HEADER, exprs, "c08kf", shard=max(4, len(fills) // common.NCPU + 1))
         for c, ix in zip(fills, idxs):
+            year_end = {y: ix[2 * (len(c.fill_out) + j) + 1] - 1 for j, y in enumerate(c.fill_years)}
             per_series: Dict[int, List[Tuple[int, int]]] = {}
             for k, (sid, _e) in enumerate(c.fill_out):
                 per_series.setdefault(sid, []).append((ix[2 * k + 1], ix[2 * k]))
@@ -485,6 +498,13 @@ def k_datasets(ctx) -> None:
                 gaps = [(a[0], b[0]) for a, b in zip(lst, lst[1:]) if b[0] - a[0] != 1]
                 if gaps:
                     msgs.append((c.shape_hit, f"series {sid}: the filled series is not gap-free ({len(gaps)} holes in calendar order)"))
+                # mode `all` fills whole years (the grid starts at the first period of the first year): it must then end at the
+                # LAST period of the last year — week 53 / day 366 when the calendar has them
+                if c.fill_mode == "all" and lst:
+                    outs = sorted(e for s_, e in c.fill_out if s_ == sid)
+                    if outs[0] % 1000 == 1 and lst[-1][0] != year_end[outs[-1] // 1000]:
+                        msgs.append((False, f"series {sid}: the grid of mode `all` starts at the first period of {outs[0] // 1000} but ends at "
+                                            f"{D.canon((outs[-1] // 1000, c.ind, outs[-1] % 1000))}, which is not the last period of {outs[-1] // 1000}"))
             for predicted, msg in msgs:
                 n_bad += 1
                 ctx.violation(key_for("fill_time_series", c.ind, predicted), f"{c.script}: {msg}", c.replay_obj({"observed": msg}))
@@ -554,7 +574,7 @@ def run(ctx):
     ctx.trusted.append("DuckDB 1.5.5 date builtins are only observed: their identification with Base/Calendar.v is X-checked on every date 1900-2100")
     ctx.assumptions.append("timeshift / fill_time_series over Date-typed identifiers (frequency inference) and series mixing several "
                            "period indicators are outside the generated datasets; fill_time_series is checked by model-free "
-                           "predicates (no input lost, gap-free in calendar order, filled measures null)")
+                           "predicates (no input lost, gap-free in calendar order, filled measures null, mode `all` covers whole years up to the calendar's last period)")
     ctx.assumptions.append("years outside 1900-2100 are covered by the theorems about the transcribed macros, not by the tie")
 
 
